@@ -100,6 +100,13 @@ package simplefixgo
 //@   ensures[C19,C04,C05,C06,C07,C08,C10,C14,C15,C16] @enqueued imp(err == nil, outN == old(outN) + 1 && outAt == upd(old(outAt), old(outN), string(data)))
 //@   ensures[C19,C04,C05,C06,C07,C08,C10,C14,C15,C16] @refused imp(err != nil, outN == old(outN) && outAt == old(outAt))
 
+// SendRaw is the documented way round the outgoing handlers: exactly the given bytes are enqueued
+//@ func (h *DefaultHandler) SendRaw(data []byte) (err error)
+//@   requires h != nil && h.ctx != nil
+//@   modifies outN, outAt
+//@   ensures[C04,C19] @enqueued imp(err == nil, outN == old(outN) + 1 && outAt == upd(old(outAt), old(outN), string(data)))
+//@   ensures[C04,C19] @refused imp(err != nil, outN == old(outN) && outAt == old(outAt))
+
 //@ func (h *DefaultHandler) send(msg SendingMessage) (err error)
 //@   requires h != nil && h.ctx != nil && msg != nil && h.outgoingHandlers.HandlerPool != nil
 //@   modifies callN, callAt, callRet, outN, outAt
@@ -180,6 +187,9 @@ package simplefixgo
 // A variable captured by a goroutine's closure is not assigned again by the spawner
 // (checked for every `go func(){...}()` of the module).
 //@ rule[C04,C20] go-captures
+// Every function that writes to the socket, puts something on the outgoing or incoming
+// queue, or runs the outgoing handler chain is covered by a proof.
+//@ rule[C04,C05,C08,C10,C19] covered-callers: send DefaultHandler.out, send DefaultHandler.incoming, Conn.conn.Write, (*DefaultHandler).send, (*DefaultHandler).sendRaw
 // A struct that holds a lock is never copied (the copy's lock would protect nothing).
 //@ rule[C20] lock-copies
 
